@@ -162,6 +162,31 @@ func genSrvAcct(p *prng, thorough bool, w *bufio.Writer) {
 			g.gauges()
 		}
 
+		// 2c. the limit is on the whole request: header block and trailer block together (each alone within it)
+		g.newConn(8, maxHdr, 0)
+		g.settings()
+		for _, d := range []int{-1, 0, 1, 300} {
+			sid := g.sid()
+			fs := append([]kv(nil), base...)
+			half := (maxHdr + d) / 2
+			if n := half - listSize(fs) - 32 - 6; n > 0 { // (a small limit is half used up by the pseudo-headers alone)
+				fs = append(fs, kv{k: "x-head", v: strings.Repeat("h", n)})
+			}
+			tr := []kv{{k: "x-tail", v: ""}}
+			tr[0].v = strings.Repeat("t", maxHdr+d-listSize(fs)-32-6)
+			g.acctHeaders(sid, fs, false, 0)
+			g.frame(frameBytes(0, 0, sid, []byte("body")))
+			split := 0
+			if p.chance(1, 2) {
+				split = 1 + p.intn(40)
+			}
+			g.acctHeaders(sid, tr, true, split)
+			if d <= 0 {
+				g.done(sid, respGen{status: 200, body: "none"})
+			}
+			g.gauges()
+		}
+
 		// 3. the concurrency limit with cancelled streams holding their slots
 		mcs := 1 + p.intn(3)
 		g.newConn(mcs, 0, 0)
